@@ -20,8 +20,8 @@ Section C09.
      verifies, on the bytes message_for_signing computes from the packet and the terms of the state
      BEING APPLIED, under the key which those terms list (Remaining ++ Joining) for metadata.Address,
      and (ii) the sender is entitled: the named leader for proposals and aborts; the acceptor /
-     rejector itself, a remaining member; the leader for execute - EXCEPT that a node listed as
-     leaving obeys an execute from any listed member (see C09_execute_leader_refuted). *)
+     rejector itself, a remaining member; the leader for execute (also for nodes listed as leaving,
+     see C09_execute_leader). *)
   Theorem C09_signed_by_named : forall now s p s' o,
     pkstep now s p = (s', o) -> s' <> s ->
     exists md next signer,
@@ -29,7 +29,7 @@ Section C09.
       /\ find_by_addr (st_remaining next ++ st_joining next) (md_addr md) = Some signer
       /\ key_ok (p_key signer) = true
       /\ verify (p_key signer) (message_for_signing (md_beacon md) (gp_body p) (terms_from_state next)) (md_sig md) = true
-      /\ role_ok me (effective B s) (gp_body p) md next.
+      /\ role_ok (effective B s) (gp_body p) md next.
   Proof. intros; unfold ppacket_step in *; eapply signed_by_named; eassumption. Qed.
 
   (* operator commands never consult a signature; only packets do (commands are local) *)
@@ -72,14 +72,14 @@ Section C09.
     exists md, l, signer. repeat split; auto.
   Qed.
 
-  (* C09_partial (members): for a node with a completed epoch the ADDRESS set of remaining+leaving
-     must equal the group's, and packets other than proposals are checked against the keys already
-     stored in the node's own state - but a proposal's keys are the packet's *)
+  (* members: for a node with a completed epoch the (address, key) pairs of remaining+leaving must
+     equal the group's, and packets other than proposals are checked against the keys already stored
+     in the node's own state *)
   Theorem C09_partial_addresses : forall now s p s' o t g,
     pkstep now s p = (s', o) -> s' <> s -> gp_body p = PProposal t ->
     st_state (effective B s) <> Fresh -> t_epoch t <> 1 -> st_final_group (effective B s) = Some g ->
-    contains_all (g_nodes g) (t_remaining t ++ t_leaving t) = true
-    /\ contains_all (t_remaining t ++ t_leaving t) (g_nodes g) = true.
+    contains_all_ak (g_nodes g) (t_remaining t ++ t_leaving t) = true
+    /\ contains_all_ak (t_remaining t ++ t_leaving t) (g_nodes g) = true.
   Proof.
     intros now s p s' o t g H N Hb NF E G. unfold ppacket_step in H.
     destruct (packet_accept_inv _ _ _ _ _ _ _ _ _ _ H N) as (md & next & Hmd & HB & A & V & C & F).
@@ -87,9 +87,21 @@ Section C09.
     eapply validate_proposal_addresses; eassumption.
   Qed.
 
-  (* C09_partial: C09_full with "the key recorded in the node's group" replaced by what the code
-     really uses - the key the APPLIED TERMS list for the sender's address - plus the address tie
-     to the group for proposals (spelled out: addresses, not keys) *)
+  (* C09_members_authenticate_proposals (full statement for proposals, proved since the F7 fix): a
+     node whose base state carries a group (state not Fresh) accepts a reshare proposal only if its
+     signature verifies under the key RECORDED IN THAT GROUP for the sender's address (group
+     addresses being distinct), not under a key supplied by the packet *)
+  Theorem C09_members_authenticate_proposals : forall now s p s' o t g md n,
+    pkstep now s p = (s', o) -> s' <> s -> gp_md p = Some md -> gp_body p = PProposal t ->
+    st_state (effective B s) <> Fresh -> t_epoch t <> 1 -> st_final_group (effective B s) = Some g ->
+    unique_keys g -> In n (g_nodes g) -> p_addr n = md_addr md ->
+    exists next, current s' = Some next
+      /\ verify (p_key n) (message_for_signing (md_beacon md) (gp_body p) (terms_from_state next)) (md_sig md) = true.
+  Proof. intros; unfold ppacket_step in *; eapply member_proposal_keys; eassumption. Qed.
+
+  (* C09_partial: what holds for EVERY accepted packet at a node with a finished record: the key used
+     is the one the applied terms list for the sender; for proposals those (address, key) pairs are
+     the group's; for the other packets they are the ones stored in the node's own state *)
   Theorem C09_partial : forall now s p s' o f g md,
     inv s -> finished s = Some f -> st_final_group f = Some g ->
     pkstep now s p = (s', o) -> s' <> s -> gp_md p = Some md ->
@@ -97,8 +109,8 @@ Section C09.
       /\ find_by_addr (st_remaining next ++ st_joining next) (md_addr md) = Some signer
       /\ verify (p_key signer) (message_for_signing (md_beacon md) (gp_body p) (terms_from_state next)) (md_sig md) = true
       /\ (forall t, gp_body p = PProposal t -> effective B s = f -> t_epoch t <> 1 ->
-            contains_all (g_nodes g) (t_remaining t ++ t_leaving t) = true
-            /\ contains_all (t_remaining t ++ t_leaving t) (g_nodes g) = true)
+            contains_all_ak (g_nodes g) (t_remaining t ++ t_leaving t) = true
+            /\ contains_all_ak (t_remaining t ++ t_leaving t) (g_nodes g) = true)
       /\ ((forall t, gp_body p <> PProposal t) ->
             st_remaining next = st_remaining (effective B s) /\ st_joining next = st_joining (effective B s)).
   Proof.
@@ -137,6 +149,7 @@ Print Assumptions C09_signed_by_named.
 Print Assumptions C09_terms_covered.
 Print Assumptions C09_unsigned_fields.
 Print Assumptions C09_fresh_caveat.
+Print Assumptions C09_members_authenticate_proposals.
 Print Assumptions C09_partial.
 Print Assumptions C09_partial_addresses.
 Print Assumptions C09_partial_stored_keys.
@@ -170,78 +183,47 @@ Definition w_s1 : store := Eval vm_compute in w_run init_store w_epoch1.
 Definition w_terms_f7 : terms := mkT w_B 2 2 1000 (Some w_x_as_a) 5 30 w_sch 0 [9] [] [w_x_as_a; w_b; w_c] [].
 Definition w_f7 : Z * event := w_pkt [97] [9; 9; 9; 9] 1 (PProposal w_terms_f7).
 
-(* C09_full: "a node that already belongs to the group authenticates members against the public
-   keys recorded in its current group": whenever a packet changes the store of a node with a
-   finished record, and the sender's address belongs to that record's group, the signature verifies
-   under the key recorded there *)
-Definition C09_full : Prop :=
-  forall verify joiner_ok key_ok me B h now p s' o f g n md,
-    let s := prun verify joiner_ok key_ok me B init_store h in
-    finished s = Some f -> st_final_group f = Some g ->
-    ppacket_step verify joiner_ok key_ok me B now s p = (s', o) -> s' <> s -> gp_md p = Some md ->
-    In n (g_nodes g) -> p_addr n = md_addr md ->
-    exists next, current s' = Some next
-      /\ verify (p_key n) (message_for_signing (md_beacon md) (gp_body p) (terms_from_state next)) (md_sig md) = true.
-
+(* regression witness for F7 (the full statement used to be refuted by it): the forged proposal is
+   refused and the store is unchanged, while the same proposal with a's real key, signed by a, is
+   accepted *)
+Definition w_terms_ok : terms := mkT w_B 2 2 1000 (Some w_a) 5 30 w_sch 0 [9] [] [w_a; w_b; w_c] [].
 Example C09_f7_witness :
   (st_state (get_current w_B w_s1), st_epoch (get_current w_B w_s1)) = (Complete, 1)
-  /\ (let '(s', o) := w_step w_s1 w_f7 in (o, st_state (get_current w_B s'), st_epoch (get_current w_B s'),
-        match st_leader (get_current w_B s') with Some l => p_key l | None => [] end))
-     = (OK, Proposed, 2, [9; 9; 9; 9]).
-Proof. vm_compute. split; reflexivity. Qed.
+  /\ w_step w_s1 w_f7 = (w_s1, Rej ERemainingAndLeavingMustExist)
+  /\ (let '(s', o) := w_step w_s1 (w_pkt [97] [1; 1; 1; 1] 5 (PProposal w_terms_ok)) in
+      (o, st_state (get_current w_B s'), st_epoch (get_current w_B s'))) = (OK, Proposed, 2).
+Proof. vm_compute. repeat split; reflexivity. Qed.
 
-Definition w_s2 : store := Eval vm_compute in fst (w_step w_s1 w_f7).
-Theorem C09_refuted : ~ C09_full.
-Proof.
-  intros H.
-  assert (E : w_step w_s1 w_f7 = (w_s2, OK)) by (vm_compute; reflexivity).
-  assert (F : exists f, finished w_s1 = Some f /\ st_final_group f = Some w_group).
-  { eexists; split; vm_compute; reflexivity. }
-  destruct F as [f [F G]].
-  specialize (H sym_verify all_j all_k w_b w_B w_epoch1 0
-                (mkGp (Some (mkMd w_B [97] [9; 9; 9; 9; 1])) (PProposal w_terms_f7)) w_s2 OK f w_group w_a
-                (mkMd w_B [97] [9; 9; 9; 9; 1])).
-  change (prun sym_verify all_j all_k w_b w_B init_store w_epoch1) with (w_run init_store w_epoch1) in H.
-  assert (Q : w_run init_store w_epoch1 = w_s1) by (vm_compute; reflexivity). rewrite Q in H.
-  assert (N : w_s2 <> w_s1).
-  { intros C. apply (f_equal (fun s => st_epoch (get_current w_B s))) in C. vm_compute in C. discriminate. }
-  destruct (H F G E N eq_refl (or_introl eq_refl) eq_refl) as [next [_ V]].
-  vm_compute in V. discriminate.
-Qed.
-Print Assumptions C09_refuted.
-
-(* the role rule for Execute: full statement, witness, and the carve-out (in role_ok) *)
-Definition C09_execute_leader_full : Prop :=
+(* the role rule for Execute holds in full since the leader check was moved before the leaver's
+   shortcut in DBState.Executing (fixed: it used to be refuted for nodes listed as leaving) *)
+Theorem C09_execute_leader :
   forall verify joiner_ok key_ok me B s now p s' o md time,
     ppacket_step verify joiner_ok key_ok me B now s p = (s', o) -> s' <> s ->
     gp_md p = Some md -> gp_body p = PExecute time ->
     exists l, st_leader (effective B s) = Some l /\ md_addr md = p_addr l.
+Proof.
+  intros verify joiner_ok key_ok me B s now p s' o md time H N Hmd Hb. unfold ppacket_step in H.
+  destruct (signed_by_named _ _ _ _ _ _ _ _ _ _ H N) as (md' & next & signer & Hmd' & _ & _ & _ & _ & R).
+  rewrite Hmd in Hmd'; inversion Hmd'; subst md'. rewrite Hb in R. exact R.
+Qed.
+Print Assumptions C09_execute_leader.
 
-(* epoch 2 led by a with c leaving; at node c the proposal is accepted, then b (a remaining member,
-   not the leader) sends Execute signed with b's key: c moves to Left *)
+(* regression witness (kept from the time the statement was refuted): epoch 2 led by a with c
+   leaving; at node c the proposal is accepted, then b (a remaining member, not the leader) sends
+   Execute signed with b's key: refused, c stays Proposed; the leader's Execute moves c to Left *)
 Definition w_terms2 : terms := mkT w_B 2 2 1000 (Some w_a) 5 30 w_sch 0 [9] [] [w_a; w_b] [w_c].
 Definition w_run_c := prun sym_verify all_j all_k w_c w_B.
 Definition w_step_c := pstep sym_verify all_j all_k w_c w_B.
 Definition w_s1c : store := Eval vm_compute in w_run_c init_store w_epoch1.
 Definition w_s2c : store := Eval vm_compute in w_run_c w_s1c [w_pkt [97] [1; 1; 1; 1] 3 (PProposal w_terms2)].
 Definition w_exec_by_b : Z * event := w_pkt [98] [2; 2; 2; 2] 1 (PExecute 0).
+Definition w_exec_by_a : Z * event := w_pkt [97] [1; 1; 1; 1] 4 (PExecute 0).
 
 Example C09_execute_witness :
   st_state (get_current w_B w_s2c) = Proposed
-  /\ (let '(s', o) := w_step_c w_s2c w_exec_by_b in (o, st_state (get_current w_B s'))) = (OK, Left).
-Proof. vm_compute. split; reflexivity. Qed.
-
-Definition w_s3c : store := Eval vm_compute in fst (w_step_c w_s2c w_exec_by_b).
-Theorem C09_execute_leader_refuted : ~ C09_execute_leader_full.
-Proof.
-  intros H.
-  assert (E : w_step_c w_s2c w_exec_by_b = (w_s3c, OK)) by (vm_compute; reflexivity).
-  assert (N : w_s3c <> w_s2c).
-  { intros C. apply (f_equal (fun s => status_index (st_state (get_current w_B s)))) in C. vm_compute in C. discriminate. }
-  destruct (H sym_verify all_j all_k w_c w_B w_s2c 0 _ w_s3c OK (mkMd w_B [98] [2; 2; 2; 2; 1]) 0 E N eq_refl eq_refl) as [l [L A]].
-  vm_compute in L. inversion L; subst l. vm_compute in A. discriminate.
-Qed.
-Print Assumptions C09_execute_leader_refuted.
+  /\ (let '(s', o) := w_step_c w_s2c w_exec_by_b in (o, st_state (get_current w_B s'))) = (Rej EOnlyLeaderCanExecute, Proposed)
+  /\ (let '(s', o) := w_step_c w_s2c w_exec_by_a in (o, st_state (get_current w_B s'))) = (OK, Left).
+Proof. vm_compute. repeat split; reflexivity. Qed.
 
 (* framing caveat: without the fixed-length assumption the bytes do NOT determine the terms - a
    signer can produce one signature for two different participant lists *)
